@@ -191,6 +191,21 @@ theorem below_draining_refuses (t : Tree) (p : String) (create : Bool) (a : RQ) 
     (hn : nearest t (p.length + 1) (parentPath p) = some a) (hd : a.state = .draining) : admits t p create = false :=
   admits_below_draining t p create a h hn hd
 
+/-! ### existing applications keep running: a draining queue is still offered to the scheduler -/
+
+/-- Marking the queues the configuration no longer names (MarkQueueForRemoval) does not change what any parent offers
+    to the scheduling cycle (`offered` = the filter of Queue.sortQueues: children that are not STOPPED and have pending
+    resources): the applications of a draining queue are scheduled as before. -/
+theorem draining_does_not_change_offer (t : Tree) (conf : List QC) (p : String) :
+    offered (markMissing t conf) p = offered t p :=
+  offered_markMissing t conf p
+
+/-- In particular a draining child with pending resources below a parent-type queue is offered. -/
+theorem draining_child_is_offered (t : Tree) (p : String) (q c : RQ) (hq : t.find p = some q) (hl : q.leaf = false) (hc : c ∈ t)
+    (hpar : c.parent = p) (hd : c.state = .draining) (hpend : strictlyGreaterThanZero (some c.pending) = true) :
+    c.path ∈ offered t p :=
+  offered_mem t p q c hq hl hc hpar (by rw [hd]; decide) hpend
+
 /-! ### queues are removed only when empty -/
 
 /-- The cleaner invents and alters nothing … -/
@@ -239,6 +254,8 @@ example : ((updateTree exTree exConf).1.find "root.c.c1").isSome = true ∧ (upd
 /-- the refinement clause holds at every entry (no queue named root below the top: `reload_refines_fresh` applies) -/
 example : parentsAgree exTree exConf = true ∧ noNamedRoot exConf = true := by decide
 example : ∀ c ∈ exConf, agreeAt (updateTree exTree exConf).1 (applyAll [] exConf).1 c = true := by decide
+/-- root still offers the draining root.a (pending cpu 2) to the scheduler, as before the update -/
+example : offered ((updateTree exTree exConf).1.upd "root.a" (fun q => { q with pending := [("cpu", 2)] })) "root" = ["root.a"] := by decide
 /-- the draining queue refuses, the cleaner keeps it while app-1 is there and removes it afterwards; root.a reappears active -/
 example : admits (updateTree exTree exConf).1 "root.a" true = false ∧ admits (updateTree exTree exConf).1 "root.c.new" true = true := by decide
 example : ((clean (updateTree exTree exConf).1).find "root.a").isSome = true := by decide
